@@ -92,6 +92,8 @@ fn playground_body(src: &str, filename: &str) -> Shown {
         }
         let (facts, optimization_plan) = resolver.into_artifacts();
 
+        // (as in wasm/src/lib.rs since d0c7e99: the resolver's working memory goes first)
+        drop(res_arena);
         let frame = TrapLeak::new(scratch_arena(Some(&arena)));
         let mut runtime = Runtime::new(&arena, Some(&frame));
         runtime.run_with_analysis(root, &facts, optimization_plan.as_ref());
@@ -157,7 +159,8 @@ fn isolated_body(src: &str, filename: &str) -> Shown {
     // a little smaller than the playground's 16 MiB arenas, which also hold the resolver's
     // scratch data: a program that fits here fits there (one that does not is discarded)
     let arena = Arena::new(if ROOMY_REFERENCE.with(std::cell::Cell::get) { 4096 * MEBI } else { 12 * MEBI }).expect("arena");
-    let frame = Arena::new(12 * MEBI).expect("frame");
+    // (roomy references get a frame arena as large as the playground's)
+    let frame = Arena::new(if ROOMY_REFERENCE.with(std::cell::Cell::get) { 16 * MEBI } else { 12 * MEBI }).expect("frame");
     let lexer = Lexer::new(src, &arena);
     let mut parser = Parser::new(lexer, &arena);
     let (root, perr) = parser.parse_program();
@@ -195,12 +198,13 @@ thread_local! {
     static ROOMY_REFERENCE: std::cell::Cell<bool> = const { std::cell::Cell::new(false) };
 }
 fn roomy(plant: &Value) -> bool {
-    plant == "many-errors" || plant == "many-warnings"
+    plant == "many-errors" || plant == "many-warnings" || plant == "resolver-heavy"
 }
 
 pub fn predict_cli(src: &str, filename: &str) -> (Vec<u8>, i32, &'static str) {
     let arena = Arena::new(if ROOMY_REFERENCE.with(std::cell::Cell::get) { 4096 * MEBI } else { 200 * MEBI }).expect("arena");
-    let frame = Arena::new(64 * MEBI).expect("frame");
+    // (roomy references get a frame arena as large as the CLI's)
+    let frame = Arena::new(if ROOMY_REFERENCE.with(std::cell::Cell::get) { 256 * MEBI } else { 64 * MEBI }).expect("frame");
     let lexer = Lexer::new(src, &arena);
     let mut parser = Parser::new(lexer, &arena);
     let (root, perr) = parser.parse_program();
@@ -321,6 +325,20 @@ fn many_warnings(n: u64, pad: usize) -> String {
         src += "# padding padding padding padding padding padding padding padding\n";
     }
     src += "shout(\"done\")\n";
+    src
+}
+
+/// `k` small functions (working memory for the checker, none of it needed once the program runs), then
+/// one expression whose temporaries take most of a frame arena: a string of 2^`doublings` bytes, read
+/// four times and concatenated (4 + 2 + 3 + 4 times its length, plus one more copy for `.len()`).
+fn resolver_heavy(k: u64, doublings: u64) -> String {
+    let mut src = String::from("do f0() start\n    return 1\nend\n");
+    for i in 1..k {
+        src += &format!("do f{i}() start\n    return f{}() add 1\nend\n", i - 1);
+    }
+    src += &format!(
+        "make s get \"x\"\nmake i get 0\njasi (i small pass {doublings}) start\n    s get s add s\n    i get i add 1\nend\nshout(s.len())\nshout((s add s add s add s).len())\n"
+    );
     src
 }
 
@@ -659,6 +677,13 @@ impl Engine for C14 {
                     route = "file";
                 }
             }
+            if tier == Tier::Thorough && (i / 3) % 4000 == 77 {
+                // CLI scale: 3000 functions through the checker, then 208 MiB of temporaries in one
+                // expression (release binary; the debug one needs a minute for it)
+                let text = resolver_heavy(3000, 24);
+                let program = json!({"prog": prog::block_to_json(&[St::Raw(String::new())]), "src": text, "plant": "resolver-heavy"});
+                return json!({"kind": "cli", "program": program, "route": "file", "chunks": [65536], "bin": "release", "packets": false});
+            }
             // the script is to come from standard input, and standard input cannot be read (a directory):
             // nothing may run and the status is non-zero
             if (i / 3) % 64 == 9 {
@@ -680,6 +705,13 @@ impl Engine for C14 {
         // (a) session
         let nprogs = r.usize(1, 6);
         let mut programs: Vec<Value> = (0..nprogs).map(|_| gen_program(&mut r)).collect();
+        if r.chance(4) {
+            // the checker's working memory must be gone by the time the program runs: 1 MiB string,
+            // 14 MiB of temporaries in one expression, after 200-1200 functions went through the checker
+            let text = resolver_heavy(r.pick(&[200u64, 800, 1200]), 20);
+            let k = r.usize(0, nprogs - 1);
+            programs[k] = json!({"prog": prog::block_to_json(&[St::Raw(String::new())]), "src": text, "plant": "resolver-heavy"});
+        }
         if r.chance(6) {
             // a report of many warnings inside a session (the playground's arenas are 16 MiB)
             let text = many_warnings(r.pick(&[30u64, 60, 125]), r.pick(&[0usize, 10_000]));
